@@ -5,8 +5,12 @@
    checkpoints, releases, completions [Done t] of ANY parked checkpoint write in ANY order, and crashes followed by
    the restore of a new incarnation, each at ANY position — is executed by the model with configuration [c]
    ([None] only when an allocator answer supplied with a [New] is not a free pool address).
-   [c_ordered c = true] is the repaired write discipline: writes and deletes of one session take effect in issue
-   order.  [c_ordered c = false] is what the code does today (an asynchronous Put applies whenever it completes). *)
+   Configuration flags (variants): [c_ordered] — writes and deletes of one session take effect in issue order
+   (/repo HEAD since 657fd59, pkg/opdb/ordered.go; false = the behaviour before the fix, kept for the _refuted
+   witnesses); [c_reserve] — PPPoE restore re-reserves addresses (HEAD since 7da5674); [c_delretry] — a checkpoint
+   Delete that fails is repeated until it succeeds (NOT in HEAD: known finding delete-error-ignored, fix proposed).
+   /repo HEAD is [c_ordered = true, c_reserve = true, c_delretry = false]: every theorem below holds for HEAD on all
+   histories without a failing Delete ([RelF]); with one, [C12_released_stay_gone_delete_fault_refuted] applies. *)
 From OV Require Import Common.Base C12.Model C12.Proofs C12.Window C12.OWModel C12.OWProofs.
 Open Scope N_scope.
 
@@ -14,7 +18,7 @@ Open Scope N_scope.
    point (a crash may occur anywhere in [ops], and one more is appended here), a session released at any earlier
    point is neither in the in-memory index nor in the store — before and after the restart. *)
 Theorem C12_released_stay_gone :
-  forall c ops s, c_ordered c = true -> c_delretry c = true -> run c init ops = Some s ->
+  forall c ops s, c_ordered c = true -> Forall (delok c) ops -> run c init ops = Some s ->
   (forall i, In i (released s) -> aget i (live s) = None /\ aget i (store s) = None) /\
   (forall p f now i, In i (released s) ->
      let s' := fst (do_crash c s p f now) in
@@ -38,7 +42,7 @@ Example C12_released_stay_gone_faults :
 Proof. eexists. split; [vm_compute; reflexivity|]. cbn. auto. Qed.
 Print Assumptions C12_released_stay_gone_faults.
 
-(* the code as it is today violates it: the Put of a checkpoint completes after the Delete of the same session *)
+(* the code before 657fd59 violated it: the Put of a checkpoint completes after the Delete of the same session *)
 Theorem C12_released_stay_gone_refuted :
   exists p ops s, run (today p 4 4 2) init ops = Some s /\ In 0 (released s) /\ aget 0 (live s) <> None /\
                   aget 0 (store s) <> None.
@@ -48,8 +52,9 @@ Proof.
 Qed.
 Print Assumptions C12_released_stay_gone_refuted.
 
-(* A release whose checkpoint Delete fails.  [c_delretry c = true] (hypothesis of the theorem above) is the repaired
-   behaviour: the Delete is repeated until it succeeds.  /repo HEAD only logs the Store error
+(* A release whose checkpoint Delete fails.  [Forall (delok c) ops] (hypothesis of the theorem above): the
+   configuration repeats a failed Delete until it succeeds ([c_delretry], the proposed repair), OR the history
+   contains no failing Delete ([RelF]) — the latter is how the theorem applies to /repo HEAD.  /repo HEAD only logs the Store error
    (deleteSessionCheckpoint): the image stays in the store and the released session is restored after a restart. *)
 Definition head_cfg (p : proto) : cfg :=
   {| c_proto := p; c_ordered := true; c_reserve := true; c_delretry := false; c_n4 := 4; c_n6 := 4; c_npd := 2 |}.
@@ -61,6 +66,22 @@ Proof.
   eexists. split; [vm_compute; reflexivity|]. cbn. repeat split; auto; discriminate.
 Qed.
 Print Assumptions C12_released_stay_gone_delete_fault_refuted.
+
+(* non-vacuity of the hypothesis for /repo HEAD ([c_delretry = false]): a history without [RelF] — with releases,
+   reordered completions, a failed Put, a stop inside a release and restarts — satisfies it *)
+Example C12_head_hypotheses_nonvacuous :
+  let ops := [New (est 0) (Some 0) None None; New (est 1) (Some 1) None None; Ck 0; Ck 1; Poison 1 false; Rel 0;
+              Done 1 false; Done 0 false; Cks 1; RelStop 1 true true None 0%Z; Crash false None 0%Z] in
+  c_ordered (head_cfg IPoE) = true /\ Forall (delok (head_cfg IPoE)) ops /\ reserves (head_cfg IPoE) /\
+  pools_small (head_cfg IPoE) /\
+  exists s, run (head_cfg IPoE) init ops = Some s /\ released s = [0] /\ aget 0 (live s) = None /\
+            (exists r, aget 1 (live s) = Some r /\ s_v4 r = Some 1).
+Proof.
+  cbn zeta. split; [reflexivity|]. split; [repeat constructor; right; exact I|]. split; [left; reflexivity|].
+  split; [unfold pools_small, static_base; cbn; repeat split; discriminate|].
+  eexists. split; [vm_compute; reflexivity|]. repeat split. eexists. split; reflexivity.
+Qed.
+Print Assumptions C12_head_hypotheses_nonvacuous.
 
 (* Stop points inside a release.  [Rel i] is the completed release (in-memory part, then the checkpoint Delete has
    taken effect).  [RelStop i putdone p f now] is a stop in the middle: the in-memory part has run, the Delete has
@@ -108,7 +129,7 @@ Print Assumptions C12_stop_during_release_witness.
    loss are real: a stop inside the window loses the session. *)
 Theorem C12_established_has_image :
   forall c ops s,
-  c_ordered c = true -> c_delretry c = true -> run c init ops = Some s ->
+  c_ordered c = true -> Forall (delok c) ops -> run c init ops = Some s ->
   forall i r t, aget i (live s) = Some r -> s_stamp r = Some t -> In (i, t) (completed s) ->
   (exists r0, aget i (store s) = Some r0 /\ same_core r0 r) /\
   (forall (p : bool) f now, expired c now r = false ->
@@ -132,7 +153,7 @@ Print Assumptions C12_window_closed_by_done.
 
 Theorem C12_loss_window :
   forall c ops s,
-  c_ordered c = true -> c_delretry c = true -> run c init ops = Some s ->
+  c_ordered c = true -> Forall (delok c) ops -> run c init ops = Some s ->
   forall i r, aget i (live s) = Some r ->
   s_stamp r = None \/
   (exists t, s_stamp r = Some t /\ ~ In (i, t) (completed s)) \/
@@ -266,7 +287,7 @@ Print Assumptions C12_writer_nonvacuous.
    [pools_small]: the model's "static" addresses (index >= 1000) lie outside every pool. *)
 Theorem C12_reserved_before_alloc :
   forall c ops s,
-  c_ordered c = true -> c_delretry c = true -> reserves c -> pools_small c -> run c init ops = Some s ->
+  c_ordered c = true -> Forall (delok c) ops -> reserves c -> pools_small c -> run c init ops = Some s ->
   (forall k r ad, aget k (live s) = Some r -> In ad (addrs r) -> inpool c ad = true ->
                   aget ad (leases s) = Some k) /\
   (forall fam a, fam < 3 -> alloc_ok c (leases s) fam (Some a) = true ->
@@ -289,7 +310,7 @@ Theorem C12_reserved_by_restore :
 Proof. exact reserved_after_restore. Qed.
 Print Assumptions C12_reserved_by_restore.
 
-(* today's PPPoE restore never re-reserves: after the restart the allocator may hand session 1 the address of the
+(* before 7da5674 the PPPoE restore never re-reserved: after the restart the allocator may hand session 1 the address of the
    restored session 0 (write ordering repaired, so this is the second defect alone) *)
 Definition pp_no_reserve : cfg :=
   {| c_proto := PPPoE; c_ordered := true; c_reserve := false; c_delretry := true; c_n4 := 4; c_n6 := 4; c_npd := 2 |}.
@@ -302,7 +323,7 @@ Proof.
 Qed.
 Print Assumptions C12_reserved_before_alloc_refuted.
 
-(* today's write discipline also lets an older image overwrite a newer one: the restored session carries the stamp
+(* the unordered write discipline (before 657fd59) also lets an older image overwrite a newer one: the restored session carries the stamp
    of checkpoint 0 although checkpoint 1 had completed *)
 Theorem C12_latest_image_refuted :
   exists ops s r, run (today IPoE 4 4 2) init ops = Some s /\ aget 0 (live s) = Some r /\ s_stamp r = Some 0.
